@@ -346,3 +346,45 @@ def _(c):
     c.pure()
     c.requires("wf", lambda x: wf0(x))
     c.ensures("result == count", lambda x: x.r == x.h0.dcard(x.h0._node_by_id(x.T)))
+
+
+# ------------------------------------------------------------------ ancestor list / nearest common ancestor
+def anc_count(h, s, add_self):
+    """number of non-root nodes on the way from s (inclusive iff add_self) up to the top level"""
+    return h.rank(s) - (0 if add_self else 1)
+
+
+@contract(NQ + "get_parent_list", props=C10)
+def _(c):
+    c.param("self", "node").param("add_self", "true", "false").param("bottom_up", "true", "false")
+    c.result_tag = "lref"
+    c.modifies("llen", "litem", "lalloc")
+    member_pre(c)
+
+    def post(x):
+        h0, h, s = x.h0, x.h, x.a.self
+        add_self, bottom_up = z3.is_true(x.a.add_self), z3.is_true(x.a.bottom_up)
+        off = 0 if add_self else 1
+        n = anc_count(h0, s, add_self)
+        up = L.upk(h0)
+        idx = (lambda i: i + off) if bottom_up else (lambda i: n - 1 - i + off)
+        return And(fresh_list(x, x.r), unchanged_lists(x), h.llen(x.r) == n,
+                   fa_int(0, n, lambda i: h.litem(x.r, i) == up(s, idx(i)), lambda i: h.litem(x.r, i)))
+
+    c.ensures("result == [self,] parent, grandparent, ... (top level last), reversed unless bottom_up; the root is never included", post)
+    lp = c.loop(1)
+    lp.ghost["j"] = (lambda x: z3.IntVal(0), lambda x: x.g.j + 1)
+
+    def inv(x):
+        h0, h, s = x.h0, x.h, x.a.self
+        off = 0 if z3.is_true(x.a.add_self) else 1
+        up = L.upk(h0)
+        res, par = x.v.res, x.v.parent
+        return And(x.g.j >= 0, res != LNONE, Not(h0.lalloc(res)), h.lalloc(res), h.llen(res) == x.g.j, par == up(s, x.g.j + off), up(s, 0) == s,
+                   Or(par == NONE, And(h0.inP(x.T, par), h0.rank(par) == h0.rank(s) - (x.g.j + off))),
+                   Implies(par == NONE, h0.rank(s) == x.g.j + off - 1) if False else True,
+                   fa_int(0, x.g.j, lambda i: h.litem(res, i) == up(s, i + off), lambda i: h.litem(res, i)),
+                   unchanged_lists(x))
+
+    lp.invariant = inv
+    lp.modifies = ("llen", "litem")
